@@ -25,7 +25,8 @@ def parseFrame (w : String) : Option Amqp.TxnRoute.TFrame :=
   match w.splitOn ":" with
   | [h, t, tag, more, ab] => do
     let txn ← if t == "-" then some none else (t.toNat?).map some
-    pure { handle := ← h.toNat?, txn := txn, tag := ← bool01 tag, more := ← bool01 more, aborted := ← bool01 ab, key := 0 }
+    let tg ← if tag == "-" then some none else (tag.toNat?).map some
+    pure { handle := ← h.toNat?, txn := txn, tag := tg, more := ← bool01 more, aborted := ← bool01 ab, key := 0 }
   | _ => none
 
 def showOut : Out → String
